@@ -20,6 +20,7 @@ MODES = ['compact', 'scatter', 'balanced', 'numa-balanced', 'none']
 # matches none of these signatures is a VIOLATION.
 LOCAL_KNOWN = [     # round-1 signatures moved to /verif/known_findings.txt; follow-up C15t findings (notes/C15.md):
     {'id': 'bind-none-oversubscribed-worker-bound', 'signature': 'bind=none but thread N has a mask'},
+    {'id': 'max-cores-zero-compact-never-returns', 'signature': 'does not terminate (mode compact, process mask ignored, max_cores below thread count'},
     {'id': 'no-core-objects-default-threads-zero', 'signature': 'rejected as zero threads'},
     {'id': 'bind-none-oversubscribed-fewer-workers', 'signature': 'workers started for N requested threads (bind none'},
 ]
@@ -192,6 +193,9 @@ def gen_cmd(rng, model, tr, tag, budget_div):
                         cs = str(nc + rng.below(3))
                     elif r == 2:
                         cs = str(1 + rng.below(max(1, nc)))       # may be below the thread count
+                    elif r == 3 and not use and bind == 'compact' and budget_div[0] > 0 and rng.below(4) == 0:
+                        cs = '0'                                  # --pika:cores=0: compact never returns (known finding)
+                        budget_div[0] -= 1
                     n_eff = int(thr) if thr.isdigit() else (npus if not use else inmask)
                     if cs.isdigit() and not use and bind in ('scatter', 'balanced') and sum(cores[:min(int(cs), nc)]) < min(n_eff, npus + 1) and n_eff <= npus:
                         # start-up would never return (known finding): costs 1 s of CPU each
